@@ -40,6 +40,7 @@ def merge(h, d):
 
 def run(ctx):
     proofs_ok = ctx.static_and_proofs("attempts")
+    __import__("props.apishape", fromlist=["x"]).check_run_shape(ctx)  # structural tie of actions.run (fix 45aa3d6)
     QUICK = ["-exh", "3", "-n", "120"]
     THOROUGH = ["-exh", "4", "-n", "8000", "-par", "8"]
     args = QUICK if ctx.tier == "quick" else THOROUGH
